@@ -39,3 +39,15 @@ Fixpoint olist_eqb (a b : list (option string)) : bool :=
 Definition lcase_mismatch (c : lcase) : bool :=
   negb (olist_eqb (log_sqls (lc_sel c) (lc_final c) (lc_ctx c) (List.length (lc_sql c))) (lc_sql c)).
 Definition log_mismatches (cs : list lcase) : list Z := map lc_id (filter lcase_mismatch cs).
+
+(* ---------- any script (metric queries, C08) ---------- *)
+Definition script_sqls (s : script) (finalize : bool) (c : pctx) (runs : nat) : list (option string) :=
+  match plan_script s finalize with
+  | None => [None]
+  | Some p => run_plan runs p c pst0
+  end.
+
+Record mcase := { mc_id : Z; mc_script : script; mc_final : bool; mc_ctx : pctx; mc_sql : list (option string) }.
+Definition mcase_mismatch (c : mcase) : bool :=
+  negb (olist_eqb (script_sqls (mc_script c) (mc_final c) (mc_ctx c) (List.length (mc_sql c))) (mc_sql c)).
+Definition script_mismatches (cs : list mcase) : list Z := map mc_id (filter mcase_mismatch cs).
